@@ -51,7 +51,7 @@ func H10_new() {
 	if vChoose(2, "first-list-fails") == 1 {
 		up.failAt = 0
 	}
-	up.ids = append(up.ids, &mwIdent{format: mwKeyFormat, blob: []byte{'k', 1}, comment: "k"})
+	mwUpKey(up, 1, "k")
 	m10nUp = up
 	noUp := vChoose(2, "no-upstream-mode") == 1
 	vFact("no-upstream", noUp)
